@@ -242,7 +242,7 @@ fn main() {
     sm.extra.insert("child_processes".into(), json!(children));
 
     // ---- correspondence: model serialize == serialize_raw, on small engines
-    let n_small = 110 * a.scale;
+    let n_small = 200 * a.scale;
     for i in 0..n_small {
         let n_net = r.range(3, 18);
         let n_cos = r.range(2, 12);
@@ -287,7 +287,7 @@ fn main() {
     }
 
     // ---- correspondence: insert_dup / fl_insert_all vs NetworkFilterList::new(filters, false)
-    for _ in 0..(90 * a.scale) {
+    for _ in 0..(160 * a.scale) {
         let n = r.range(4, 24);
         let mut lines: Vec<String> = (0..n).map(|_| if r.chance(1, 3) { format!("{}$domain=a.com|b.com|x.net", gen::pattern(&mut r)) } else { gen::rule(&mut r, false) }).collect();
         if r.chance(1, 2) {
